@@ -1,12 +1,78 @@
 import ZarrsModel.Driver.C01
-/- driver handler for C16: C01/C06 handlers + parallel client sections executed sequentially on the model -/
+import ZarrsModel.Driver.C05
+/- driver handler for C16: C01/C06 handlers + parallel client sections executed sequentially on the model;
+`rawshard`: the raw stored value of a shard written at some concurrency target is parsed independently of zarrs
+(Props/C16Shard: every schedule of the parallel assembly yields a legal shard of the same length holding the same inner
+chunks) -/
 namespace Zarrs.DriverC16
-open Zarrs Zarrs.Proto
+open Zarrs Zarrs.Proto Zarrs.Codec
 
 structure St where
   base : DriverC01.St := {}
   pending : List (Nat × Line) := []
   nthreads : Nat := 0
+  dtype : String := ""
+  /-- `grp=` of `rawshard` lines: length and inner-chunk payloads of the first value seen in the group -/
+  groups : List (String × Nat × List (Option Bytes)) := []
+
+/-- live entries sorted by offset do not overlap (entries of size 0 occupy nothing); `Shard.wellFormed` states the same
+pairwise (cubic on lists — too slow for shards with a thousand inner chunks) -/
+def disjointSorted (live : List (Nat × Nat)) : Bool :=
+  let sorted := (live.filter (fun e => e.2 != 0)).mergeSort (fun a b => a.1 ≤ b.1)
+  (sorted.zip (sorted.drop 1)).all (fun (a, b) => decide (a.1 + a.2 ≤ b.1))
+
+/-- judge the raw value of a (top-level, last-in-chain) shard against the model's contents of the chunk: returns the
+complaint, or the total length and the stored inner-chunk payloads in index order -/
+def judgeShard (st : DriverC01.St) (dtype : String) (c : Idx) (v : Bytes) : Except String (Nat × List (Option Bytes)) :=
+  match st.cfg with
+  | none => .error "no configuration"
+  | some cfg =>
+    let toks := DriverC05.splitTop st.chain
+    match cfg.chunkShape c, cfg.retrieveChunk st.st c, toks.findIdx? (·.startsWith "shard[") with
+    | some cshape, some xs, some i =>
+      if i + 1 != toks.length then .error "rawshard needs the sharding codec last in the chain" else
+      match DriverC05.parseShard (toks.getD i "") with
+      | none => .error "unparsable shard description"
+      | some sd =>
+        let n := if prod sd.inner == 0 then 0 else prod cshape / prod sd.inner
+        let scfg : Shard.Cfg := ⟨n, sd.atEnd, sd.big, sd.crc⟩
+        match Shard.indexBytes scfg v with
+        | none => .error "the value is shorter than its index"
+        | some ib =>
+          match Shard.decodeIndex scfg true ib with
+          | .error _ => .error "the index does not decode at its declared location (checksum validated)"
+          | .ok entries =>
+            let live := entries.filter Shard.isLive
+            let reg := Shard.indexRegion scfg v.length
+            if !live.all (fun e => decide (e.1 + e.2 ≤ v.length) && (decide (e.1 + e.2 ≤ reg.1) || decide (reg.2 ≤ e.1))) then
+              .error "a live index entry reaches outside the value or into the index"
+            else if !disjointSorted live then .error "two live index entries overlap (two inner chunks were given the same byte range)"
+            else
+              let total := (live.map (·.2)).sum
+              if v.length != total + Shard.indexSize scfg then
+                .error s!"the length {v.length} is not the sum of the stored inner chunks {total} plus the index {Shard.indexSize scfg}"
+              else
+                let payloads := entries.map (fun e => if Shard.isLive e then some (slice v e.1 (e.1 + e.2)) else none)
+                -- contents: plain shard (no array-to-array codec before it, not nested)
+                if i != 0 || (sd.innerChain.splitOn "shard[").length > 1 then .ok (v.length, payloads) else
+                let innerBox : Subset := ⟨cshape.map (fun _ => 0), cshape⟩
+                let innerChunks := (innerBox.chunks sd.inner).map (·.2)
+                let itoks := DriverC05.splitTop sd.innerChain
+                let bad := (List.zip innerChunks payloads).findSome? (fun (sub, pl) =>
+                  let elems := sub.extract cshape xs
+                  let fill := elems.all (· == cfg.fill)
+                  match pl with
+                  | none => if fill then none else some "an inner chunk with non-fill data has the sentinel index entry"
+                  | some b =>
+                    if fill then some "an all-fill inner chunk is stored (store_empty_chunks is off)" else
+                    match DriverC05.encodeModelled itoks dtype st.es sd.inner elems with
+                    | some e => if e == b then none else
+                        some ("an inner chunk's stored bytes " ++ showHex b ++ " are not its encoding " ++ showHex e)
+                    | none => none)
+                match bad with
+                | some why => .error why
+                | none => .ok (v.length, payloads)
+    | _, _, _ => .error "not a sharded chunk of the model"
 
 /-- strip `pthread` from the verbs so that the C01 handler sees `c16 op <verb> ...` -/
 def unwrap (l : Line) : Line := { l with verbs := l.verbs.filter (· != "pthread") }
@@ -15,11 +81,30 @@ def handle (st : St) (l : Line) : Option (St × List String × Option String) :=
   let v1 ← l.verbs[1]?
   if v1 == "cfg" then
     let (b, acc, n) ← DriverC01.handle st.base l
-    pure ({ base := b, pending := [], nthreads := 0 }, acc, n)
+    pure ({ base := b, pending := [], nthreads := 0, dtype := (l.get "dtype").getD "", groups := [] }, acc, n)
   else
     let verb ← l.verbs[2]?
     match verb with
+    | "shardext_stress" => pure (st, ["val n=" ++ (l.get "n").getD "?" ++ " bad_a=0 bad_b=0"], none)
     | "set_ccm" => pure (st, ["ok"], none)
+    | "set_ct" => pure (st, ["ok"], none)
+    | "rawshard" =>
+      let c ← l.nl "c"
+      let grp := (l.get "grp").getD ""
+      if !l.outcome.startsWith "raw " || l.outcome == "raw none" then pure (st, ["raw <value>"], none) else
+      match parseHex ((l.outcome.drop 4).toString) with
+      | none => pure (st, ["raw <value>"], none)
+      | some v =>
+        match judgeShard st.base st.dtype c v with
+        | .error why => pure (st, ["rawshard: " ++ why], none)
+        | .ok (len, payloads) =>
+          if grp == "" then pure (st, [l.outcome], none) else
+          match st.groups.find? (·.1 == grp) with
+          | none => pure ({ st with groups := (grp, len, payloads) :: st.groups }, [l.outcome], none)
+          | some (_, len0, payloads0) =>
+            if len != len0 then pure (st, [s!"rawshard: length {len0} expected (same contents written at another concurrency target), not {len}"], none)
+            else if payloads != payloads0 then pure (st, ["rawshard: the stored inner chunks differ from those written at another concurrency target"], none)
+            else pure (st, [l.outcome], none)
     | "pstart" => pure ({ st with pending := [], nthreads := (l.nat "n").getD 0 }, ["ok"], none)
     | "pthread" => pure ({ st with pending := st.pending ++ [((l.nat "t").getD 0, unwrap l)] }, ["queued"], none)
     | "prun" =>
